@@ -748,12 +748,28 @@ fn mutate_last_state_proof(
                 }
             }
         }
+        13 if nr >= 2 => {
+            if rng.chance(1, 3) {
+                // nothing but the reorg section
+                headers.truncate(nr);
+                note = "reorg section only".into();
+            } else {
+                // a hole inside the reorg section, padded at the front to keep the count
+                let i = if rng.chance(1, 2) { nr - 2 } else { rng.usize_below(nr - 1) };
+                let first: u64 = headers[0].header().raw().number().unpack();
+                headers.remove(i);
+                if first > 1 {
+                    headers.insert(0, sim.world.block(view.branch, first - 1).verifiable());
+                }
+                note = format!("hole in the reorg section at position {}", i);
+            }
+        }
         _ => {}
     }
     // A deviating peer that knows the protocol proves what it sends: when every header of the
     // altered answer is still a real block below the last one, the MMR proof is regenerated for
     // exactly this set, so that only the structural checks stand between it and acceptance.
-    if !note.is_empty() && matches!(op % 14, 0 | 3 | 6 | 7 | 8 | 10) && rng.chance(2, 3) {
+    if !note.is_empty() && matches!(op % 14, 0 | 3 | 6 | 7 | 8 | 10 | 13) && rng.chance(2, 3) {
         let last_number: u64 = last.header().raw().number().unpack();
         if sim.world.block_opt(view.branch, last_number).map(|b| b.hash()) == Some(last.header().calc_header_hash()) {
             let mut numbers: Vec<u64> = Vec::new();
